@@ -81,7 +81,8 @@ def akai_adapter():
 
 
 def akai_alpha(n):
-    return [RC.A_FREE, RC.A_END, RC.A_RES1, RC.A_RES2] + list(range(1, n)) + [n]
+    # (0x4001 / 0xBFFF: out-of-range words that share their two top bits with the reserved flags)
+    return [RC.A_FREE, RC.A_END, RC.A_RES1, RC.A_RES2] + list(range(1, n)) + [n, 0x4001, 0xBFFF]
 
 
 def run_akai(n, prefix, rep, steps):
@@ -498,7 +499,7 @@ class Check(CheckBase):
     title = "Allocation chains resolve to exactly the linked sectors, and always terminate"
     rule = ("complete enumeration: (a) all link tables over n sectors (entry in {end, next=0..n}) x all starts 0..n, "
             "n<=5 quick / 6 thorough; (b) all raw AKAI SAT tables over n sectors (word in {free,end,0x4000,0x8000,"
-            "links 1..n-1, n}) x all starts, n=5 quick / 6 thorough; (c) all raw Roland FAT tables over scanned cells "
+            "links 1..n-1, n, 0x4001, 0xBFFF}) x all starts, n=5 quick / 6 thorough; (c) all raw Roland FAT tables over scanned cells "
             "2..6 with FAT_NUM_ENTRIES rebound to 16 (word in {free,reserved,error,0xFFF8,0xFFFF,links 2..7,16}) x "
             "starts 2..7, plus the same cell patterns embedded in a real 65536-entry FAT (one representative per "
             "outcome class quick / every 7th table thorough), each with the free-cluster count word 0 / 2 / 3 / 0xFFF1 / 0xFFFF; "
